@@ -70,8 +70,8 @@ func init() {
 			{Name: "blob-negative-size-unguarded", File: "osmpbf/decode.go", Find: "\tif blobHeader.GetDatasize() < 0 {\n\t\treturn nil, errors.New(\"blob size < 0\")\n\t}\n", Replace: "", ExpectRule: "E3", ExpectConstruct: "blobBuf"},
 			{Name: "blob-limit-above-buffer", File: "osmpbf/decode.go", Find: "if blobHeader.GetDatasize() >= maxBlobSize {", Replace: "if blobHeader.GetDatasize() >= 2*maxBlobSize {", ExpectRule: "E3", ExpectConstruct: "blobBuf"},
 			{Name: "rawsize-check-dropped", File: "osmpbf/decode.go", Find: "\t\tif buf.Len() != int(blob.GetRawSize()) {\n\t\t\treturn nil, fmt.Errorf(\"raw blob data size %d but expected %d\", buf.Len(), blob.GetRawSize())\n\t\t}\n", Replace: "", ExpectRule: "E4", ExpectConstruct: "raw_size"},
-			{Name: "zlib-read-limited-to-rawsize", File: "osmpbf/decode.go", Find: "if _, err = buf.ReadFrom(r); err != nil {", Replace: "if _, err = buf.ReadFrom(io.LimitReader(r, int64(blob.GetRawSize()))); err != nil {", ExpectRule: "E4", ExpectConstruct: "whole-stream"},
-			{Name: "zlib-copyn-rawsize", File: "osmpbf/decode.go", Find: "if _, err = buf.ReadFrom(r); err != nil {", Replace: "if _, err = io.CopyN(buf, r, int64(blob.GetRawSize())); err != nil {", ExpectRule: "E4", ExpectConstruct: "whole-stream"},
+			{Name: "zlib-read-limited-to-rawsize", File: "osmpbf/decode.go", Find: "if _, err = buf.ReadFrom(io.LimitReader(r, int64(blob.GetRawSize())+1)); err != nil {", Replace: "if _, err = buf.ReadFrom(io.LimitReader(r, int64(blob.GetRawSize()))); err != nil {", ExpectRule: "E4", ExpectConstruct: "whole-stream"},
+			{Name: "zlib-copyn-rawsize", File: "osmpbf/decode.go", Find: "if _, err = buf.ReadFrom(io.LimitReader(r, int64(blob.GetRawSize())+1)); err != nil {", Replace: "if _, err = io.CopyN(buf, r, int64(blob.GetRawSize())); err != nil {", ExpectRule: "E4", ExpectConstruct: "whole-stream"},
 			{Name: "unknown-blob-empty-data", File: "osmpbf/decode.go", Find: "\tdefault:\n\t\treturn nil, errors.New(\"unknown blob data\")", Replace: "\tdefault:\n\t\treturn nil, nil", ExpectRule: "E4", ExpectConstruct: "default"},
 			{Name: "feature-gate-dropped", File: "osmpbf/decode.go", Find: "\t\tif !parseCapabilities[feature] {\n\t\t\treturn nil, fmt.Errorf(\"parser does not have %s capability\", feature)\n\t\t}\n", Replace: "\t\t_ = feature\n", ExpectRule: "E5", ExpectConstruct: "required"},
 			{Name: "wrong-type-block-skipped", File: "osmpbf/decode.go", Find: "\t\t\tif err == nil && blobHeader.GetType() != osmDataType {\n\t\t\t\terr = fmt.Errorf(\"unexpected fileblock of type %s\", blobHeader.GetType())\n\t\t\t}\n", Replace: "\t\t\tif err == nil && blobHeader.GetType() != osmDataType {\n\t\t\t\tcontinue\n\t\t\t}\n", ExpectRule: "E5", ExpectConstruct: "block type"},
